@@ -41,6 +41,7 @@ type Scenario struct {
 	Checkpts []int         // heights of block checkpoints set in the chain parameters
 	Parallel bool          // dial all peers at once instead of in listed order
 	Barrier  bool          // peers hold their first headers reply until every listed peer has connected
+	NoRedial bool          // every peer can be dialled once: a peer the client dropped does not come back, nobody new joins
 	HoldCF   bool          // peer i+1 is dialled only after peer i has been asked for cfheaders (peer i alone at first)
 }
 
@@ -200,6 +201,9 @@ func (s *Sim) dial(a net.Addr) (net.Conn, error) {
 	p := s.byAddr[a.String()]
 	if p == nil {
 		return nil, fmt.Errorf("no route to %s", a)
+	}
+	if s.Sc.NoRedial && atomic.LoadInt32(&p.Sessions) > 0 {
+		return nil, errors.New("connection refused")
 	}
 	if !s.Sc.Parallel {
 		select {
@@ -453,7 +457,7 @@ func (s *Sim) Run() {
 	// a short quiet period: nothing may move away from the converged state
 	s.waitFor(150*time.Millisecond, func(Obs) bool { return false })
 	o := s.Observe()
-	s.out("final", o.String()+" "+s.chainCheck())
+	s.out("final", o.String()+" "+s.chainCheck()+" sync "+s.syncPeer(o))
 	s.askedLines()
 }
 
@@ -507,6 +511,33 @@ func (s *Sim) getCFilter(h int32) string {
 	case <-time.After(6 * time.Second):
 		return "HANG"
 	}
+}
+
+// syncPeer names the block manager's sync peer relative to the peers that are
+// connected in observation o: none | <i> (connected peer i) | gone:<i> (peer i is
+// no longer connected) | unknown.
+func (s *Sim) syncPeer(o Obs) string {
+	addr := s.CS.VerifSyncPeerAddr()
+	if addr == "" {
+		return "none"
+	}
+	p := s.byAddr[addr]
+	if p == nil {
+		return "unknown"
+	}
+	// a peer counts as connected when the client lists it, or when its connection is
+	// still live on the node's side (the done event may be in flight)
+	for k := 0; k < 25; k++ {
+		if contains(o.Conn, p.Idx) {
+			return fmt.Sprint(p.Idx)
+		}
+		if s.CS.VerifSyncPeerAddr() != addr {
+			return s.syncPeer(s.Observe())
+		}
+		time.Sleep(20 * time.Millisecond)
+		o = s.Observe()
+	}
+	return fmt.Sprintf("gone:%d", p.Idx)
 }
 
 // chainCheck walks the stored chain by height and compares every block header
